@@ -1,6 +1,7 @@
 package jsonapi
 
 import (
+	"bytes"
 	"encoding/json"
 	"sort"
 	"time"
@@ -411,55 +412,20 @@ func checkTime(op string, rval, cval time.Time) bool {
 }
 
 func checkBytes(op string, rval, cval []byte) bool {
+	// The slices are compared lexicographically, like strings.
 	switch op {
 	case "=":
-		for i := 0; i < len(rval) && i < len(cval); i++ {
-			if rval[i] != cval[i] {
-				return false
-			}
-		}
-
-		return len(rval) == len(cval)
+		return bytes.Equal(rval, cval)
 	case "!=":
-		for i := 0; i < len(rval) && i < len(cval); i++ {
-			if rval[i] != cval[i] {
-				return true
-			}
-		}
-
-		return len(rval) != len(cval)
+		return !bytes.Equal(rval, cval)
 	case "<":
-		for i := 0; i < len(rval) && i < len(cval); i++ {
-			if rval[i] < cval[i] {
-				return true
-			}
-		}
-
-		return len(rval) < len(cval)
+		return bytes.Compare(rval, cval) < 0
 	case "<=":
-		for i := 0; i < len(rval) && i < len(cval); i++ {
-			if rval[i] > cval[i] {
-				return false
-			}
-		}
-
-		return len(rval) <= len(cval)
+		return bytes.Compare(rval, cval) <= 0
 	case ">":
-		for i := 0; i < len(rval) && i < len(cval); i++ {
-			if rval[i] > cval[i] {
-				return true
-			}
-		}
-
-		return len(rval) > len(cval)
+		return bytes.Compare(rval, cval) > 0
 	case ">=":
-		for i := 0; i < len(rval) && i < len(cval); i++ {
-			if rval[i] < cval[i] {
-				return false
-			}
-		}
-
-		return len(rval) >= len(cval)
+		return bytes.Compare(rval, cval) >= 0
 	default:
 		return false
 	}
